@@ -23,7 +23,7 @@ TRUSTED_BASE = [
 LOOKUPS = {"get", "gete", "peek", "peeke", "has", "rm", "rme", "touch"}
 ENDS = {"rmlru", "rmmru", "getlru", "peeklru", "peekmru"}
 CAPOPS = {"reserve", "tryreserve", "shrink", "shrinkfit"}
-SHARED = {"peek", "peeke", "has", "peeklru", "peekmru", "dbg", "nop"}
+SHARED = {"peek", "peeke", "has", "peeklru", "peekmru", "dbg", "nop", "readers"}
 
 
 def op_name(ops_line):
@@ -142,7 +142,7 @@ def parse_fields(line):
 
 BASE = [("rand", 600, []), ("tiny", 600, []), ("wide", 40, []), ("mutate", 200, []), ("insert", 200, []),
         ("order", 100, []), ("retain", 100, []), ("iter", 150, []), ("clone", 100, []), ("capacity", 40, []),
-        ("churn", 3, []), ("exh", 0, ["--depth", "2"])]
+        ("churn", 3, []), ("huge", 1, []), ("exh", 0, ["--depth", "2"])]
 
 
 def fam(name, seqs, *extra):
@@ -152,7 +152,8 @@ def fam(name, seqs, *extra):
 # Builds of the harness that instantiate the cache with a value (key) type *without drop glue*
 # (`mem::needs_drop::<V>() == false`): code that specialises on the type parameters is only reached
 # this way. The model's prediction is projected: drop events of the plain side do not exist.
-VARIANTS = {"plain-v": re.compile(r"dV:\d+ ?"), "plain-k": re.compile(r"dK:\d+ ?")}
+VARIANTS = {"plain-v": re.compile(r"dV:\d+ ?"), "plain-k": re.compile(r"dK:\d+ ?"), "plain-kv": re.compile(r"d[KV]:\d+ ?")}
+VARIANT_FEATURES = {"plain-v": "plain-v", "plain-k": "plain-k", "plain-kv": "plain-v,plain-k"}
 
 VARIANT_PLAN = {
     "C06": [fam("iterx", 0, "--entries", "3", "--calls", "4"), fam("iter", 150), fam("retain", 100), fam("insert", 150)],
@@ -161,6 +162,9 @@ VARIANT_PLAN = {
     "C17": [fam("forgetx", 0, "--entries", "3", "--calls", "5"), fam("forget", 200)],
     "C03": [fam("insert", 200)],
     "C11": [fam("mutate", 200)],
+    "C16": [fam("panicx", 0, "--rounds", "1"), fam("panic", 150)],
+    "C07": [fam("capacity", 60), fam("rand", 150)],
+    "C19": [fam("order", 100), fam("iter", 100)],
 }
 
 
@@ -201,7 +205,7 @@ EMPHASIS = {
     "C15": [fam("retainx", 0, "--entries", "6"), fam("retain", 600)],
     "C16": [fam("panicx", 0, "--rounds", "1"), fam("panic", 300)],
     "C17": [fam("forgetx", 0, "--entries", "4", "--calls", "6"), fam("forget", 600)],
-    "C19": [fam("order", 400), fam("iter", 300), fam("clone", 200), fam("panic", 100), fam("panicx", 0, "--rounds", "1")],
+    "C19": [fam("order", 400), fam("iter", 300), fam("clone", 200), fam("panic", 100), fam("panicx", 0, "--rounds", "1"), fam("readers", 300)],
     "C20": [fam("churn", 8), fam("wide", 100), fam("capacity", 100), fam("tomb", 0), fam("slide", 0)],
 }
 
@@ -348,7 +352,7 @@ def build_harness(ctx):
         ctx.harness_variant = {}
         if ctx.prop in VARIANT_PLAN:
             for v in VARIANTS:
-                rcv, outv = run(["cargo", "build", "--release", "--offline", "--features", v, "--target-dir", f"target-{v}"], cwd=h, timeout=1800)
+                rcv, outv = run(["cargo", "build", "--release", "--offline", "--features", VARIANT_FEATURES[v], "--target-dir", f"target-{v}"], cwd=h, timeout=1800)
                 if rcv != 0:
                     return False, out + f"\n---- variant {v} ----\n" + outv
                 ctx.harness_variant[v] = os.path.join(h, f"target-{v}", "release", "lru-verif-harness")
